@@ -147,11 +147,19 @@ def _small(cfg, v):
     return v
 
 
+def _clamp0(cfg, v):
+    return 0 if isinstance(v, int) and not isinstance(v, bool) and v < 0 else v          # a normalising validator whose result may be falsy
+
+
+def _blank(cfg, v):
+    return "" if isinstance(v, str) and v.startswith("#") else v                          # likewise: a comment becomes the empty string
+
+
 def _keyerr(cfg, v):
     return {"known": v}["unknown"]            # a validator that fails with something other than ValueError / TypeError
 
 
-CATALOGUE = {"reject": _reject, "typeerr": _typeerr, "nonneg": _nonneg, "upper": _upper, "short": _short, "small": _small, "keyerr": _keyerr}
+CATALOGUE = {"reject": _reject, "typeerr": _typeerr, "nonneg": _nonneg, "upper": _upper, "short": _short, "small": _small, "keyerr": _keyerr, "clamp0": _clamp0, "blank": _blank}
 
 
 # ------------------------------------------------------------------------------------------------ declarations
@@ -194,7 +202,7 @@ def gen_field(rng, depth=2, scalar_only=False, hashable=False):
     k = rng.choice(kinds)
     f = {"k": k, "required": rng.random() < 0.25}
     if rng.random() < 0.12 and k in ("string", "int", "float", "list", "dict") and not hashable:
-        f["custom"] = rng.choice({"string": ["upper", "short", "reject", "keyerr"], "int": ["nonneg", "reject", "typeerr", "keyerr"], "float": ["nonneg"],
+        f["custom"] = rng.choice({"string": ["upper", "short", "reject", "keyerr", "blank", "blank"], "int": ["nonneg", "reject", "typeerr", "keyerr", "clamp0", "clamp0"], "float": ["nonneg"],
                                   "list": ["short", "small"], "dict": ["small", "small", "reject"]}[k])
     if k in ("string", "ipv4addr", "ipv4net", "hostname", "url", "filename"):
         f.update(str_opts(rng, light=k != "string"))
@@ -417,7 +425,8 @@ WRONG = [None, True, False, 0, 1, -1, 7, 2 ** 70, 1.5, 0.0, -0.0, math.nan, math
 STR_POOL = ["", "a", "abc", "ABC", "Abc", "  abc  ", "xabcx", "Xabc", "xXabcXx", "x", "X", "xx", " ", "\t\n", "a b", "ab", "abcd", "abcde", "abcdefghi",
             "éa", "É", " abc ", "\x85abc", "12", "1234", "12345", "foo@bar.com", "-_a_-", "debug", " INFO ", "Warning", "low", "HIGH ",
             "development", "Production ", "dev", "abab", "abcdab", "xyz", "yyzz", "z", "info\n", "a\nc", "a\n", "ß", "İ", "ǅ", "ﬁ",
-            "xax", "XaX", "xAAx", "xXaXx", "abxab", "-a-", "_ab_", "straße", "ßß", "ßßß", "aßa", "ﬁﬁ", "groß"]
+            "xax", "XaX", "xAAx", "xXaXx", "abxab", "-a-", "_ab_", "straße", "ßß", "ßßß", "aßa", "ﬁﬁ", "groß",
+            "a\x85b", "tail\x85z", "a\n\nb", "a\n \nb", "see // docs", "x //", "#note", "#", "\u2028a", "a\u2029b"]
 INT_POOL = [0, 1, -1, 2, 3, 5, 10, 11, 99, 100, 101, 65535, 65536, 2 ** 40, 2 ** 53, -10, -11, "0", "5", " 7 ", "+3", "-4", "1_000", "1__0", "_1", "007",
             "0x10", "1e3", "1.0", "abc", "", " ", "٣", "1٣", "１２", 1.0, 1.5, -1.5, 2.999, -0.0, 1e10, 1e300, 2.0 ** 60, "10", "100", "65535", "65536"]
 FLOAT_POOL = [0, 1, -1, 10, 2 ** 53, 0.0, -0.0, 0.5, 1.5, -1.5, 2.5, 1e10, 1e300, 5e-324, math.inf, -math.inf, math.nan, "0.5", "1", " 2.5 ", "1e3", "inf",
@@ -438,7 +447,8 @@ URL_POOL = ["http://example.com", "https://a.b/c?d=e#f", "ftp://x", "mailto:a@b"
 FILE_POOL = ["", "f.txt", "g.txt", "sub", "sub/g.txt", "missing", "@TMP/f.txt", "@TMP/sub", "@TMP/missing", "./f.txt", "sub/../f.txt", "~", "~/x", "/", "/etc", "/etc/passwd", "f.txt ",
              " f.txt", "a//b", "..", "."]
 BYTES_POOL = ["", "abc", "é", "𝄞", b"", b"abc", b"\x00\xff\x10", b"0123456789abcdef0", "A" * 50]
-SECRET_POOL = ["", "s3cr3t", "pässwörd", " x ", "a" * 40, "user:pass", " padded ", "tab\tend\t"]
+SECRET_POOL = ["", "s3cr3t", "pässwörd", " x ", "a" * 40, "user:pass", " padded ", "tab\tend\t",
+               "x\u00b2", "\ufb01x", "\u212b", "e\u0301", "\uff21\uff22"]          # not in NFC / NFKC form: a secret is its exact code points
 
 
 def scalar_pool(f):
